@@ -23,6 +23,6 @@ DocCases == ndJsonDeserialize("examples.ndjson")
 DocInit == LET C == DocCases
            IN \E i \in DOMAIN C :
                 /\ cs = [fam |-> C[i].fam, class |-> C[i].class, prog |-> C[i].prog, inputs |-> C[i].inputs,
-                         events |-> <<>>, failFast |-> FALSE, noSummary |-> FALSE, tag |-> C[i].text]
+                         events |-> C[i].events, failFast |-> FALSE, noSummary |-> FALSE, tag |-> C[i].text]
                 /\ st = Block([InitState EXCEPT !.inq = cs.inputs], cs.prog.main)
 =============================================================================
